@@ -37,6 +37,7 @@ type Rq struct {
 	Ims   int      `json:"ims"`   // client's own If-Modified-Since (0 none, 1 present)
 	Sp    int      `json:"sp"`    // Cache-Control spelling variant (0 = canonical)
 	Ccl   []string `json:"ccl"`   // Cache-Control field lines given verbatim (CcSyntax.tla); the abstract fields say what they mean
+	RawKeys int    `json:"rawkeys"` // 1: the selecting header fields are put into the header map under lower-case keys (req.Header["x-a"] = ...)
 	USp   int      `json:"usp"`   // URI spelling variant (0 = canonical)
 	Pragma int     `json:"pragma"` // 1: Pragma: no-cache and no Cache-Control
 	UGap   int     `json:"ugap"`   // 1: URI relation to its class is outside the property's explicit lists
@@ -75,6 +76,7 @@ type Ans struct {
 	Fr    int      `json:"fr"`     // framing: 0 content-length, 1 chunked, 2 close-delimited, 3 http/1.0, 4 h2-shaped, 5 chunked+trailer
 	Sp    int      `json:"sp"`     // Cache-Control spelling variant
 	Ccl   []string `json:"ccl"`    // Cache-Control field lines given verbatim (CcSyntax.tla)
+	DFmt  int      `json:"dfmt"`   // HTTP-date format of Date / Expires / Last-Modified: 0 IMF-fixdate, 1 RFC 850, 2 asctime; 3 with nodate: an unparsable Date instead of none
 	Upd   int      `json:"upd"`    // 304: 1 carries an updated X-Upd end-to-end field
 	Pragma int     `json:"pragma"`
 }
@@ -93,6 +95,7 @@ type Step struct {
 	Faults []Fault `json:"faults,omitempty"`
 	D      int     `json:"d,omitempty"`
 	Cancel int     `json:"cancel,omitempty"` // req: 1 = cancel the caller's context right after return, 2 = before the call
+	Reuse    int   `json:"reuse,omitempty"`    // req: after the return the caller reuses its request object and gives X-A this value class
 	LateBody int   `json:"latebody,omitempty"` // req: 1 = read the body only after due background work has finished, 2 = at the end of the scenario
 	Par    []Step  `json:"par,omitempty"`    // conc: requests issued concurrently
 	Sched  []int   `json:"sched,omitempty"`  // conc: gate release order (client indices)
@@ -103,6 +106,7 @@ type Opt struct {
 	SwrSet int `json:"swrset"` // 1: option given even when 0 / negative
 	Log    int `json:"log"`    // 0 discard, 1 debug-level handler
 	Mtime  int `json:"mtime"`  // fscache update_mtime
+	Tz     int `json:"tz"`     // the process's local time zone for this scenario, hours east of UTC (0 = UTC)
 }
 
 type Scenario struct {
